@@ -327,7 +327,13 @@ func (g *PageGen) commaURL(ext string) string {
 }
 
 func (g *PageGen) img() string {
-	switch g.R.Intn(8) {
+	switch g.R.Intn(10) {
+	case 8:
+		// candidates with a width AND a height descriptor (browsers accept the pair)
+		return `<img src="` + g.mediaURL("jpg") + `" srcset="` + g.mediaURL("jpg") + ` 400w 300h, ` + g.mediaURL("jpg") + ` 800w 600h"` + g.deco() + `>`
+	case 9:
+		// pixel densities written as floating-point numbers with an exponent; tab / newline separators
+		return `<img src="` + g.mediaURL("jpg") + `" srcset="` + g.mediaURL("jpg") + " 1e0x,\n\t" + g.mediaURL("jpg") + ` 1.5E0x , ` + g.mediaURL("jpg") + ` 2x"` + g.deco() + `>`
 	case 7:
 		// a picture whose only URL is the src of its img
 		return `<picture` + g.deco() + `><img src="` + g.mediaURL("jpg") + `" alt="alt"></picture>`
